@@ -1,7 +1,7 @@
 \* exhaustive check of the closed model as the statement wants it (CodeMode = "code"), every call interleaves
 CONSTANTS N = 4  Pre = 1  Limit = 2  Replicas0 = 1  ScaleTo = {1, 2}  Budget = 1
           CodeMode = "code"  Grain = "call"
-          MaxCreateFail = 1  MaxTaintFail = 1  MaxDelete = 1  MaxDrift = 1  MaxScale = 1  MaxTimeout = 0  MaxResync = 1
+          MaxCreateFail = 1  MaxTaintFail = 1  MaxDelete = 1  MaxDrift = 1  MaxScale = 1  MaxTimeout = 0  MaxResync = 1  MaxFlip = 99
           Record = "last"  MaxLen = 0
 SPECIFICATION Spec
 VIEW view
